@@ -243,7 +243,22 @@ func (g *docGen) figure() {
 		g.wf(`<picture><source srcset="/img/p%d.webp 1x,/img/p%d@2.webp 2x" type="image/webp"><img src="/img/p%d.jpg"></picture>`, g.tok, g.tok, g.tok)
 	case 2:
 		g.f("lazy-img")
-		g.wf(`<img class="lazy" data-src="/img/lazy%d.jpg" data-srcset="/img/lazy%d.jpg 2x" src="data:image/gif;base64,R0lGOD">`, g.tok, g.tok)
+		if g.r.Bool() {
+			g.wf(`<img class="lazy" data-src="/img/lazy%d.jpg" data-srcset="/img/lazy%d.jpg 2x" src="data:image/gif;base64,R0lGOD">`, g.tok, g.tok)
+		} else {
+			// attribute soup: several lazy-loading conventions at once, with different values
+			g.f("lazy-img-multi")
+			g.w(`<img`)
+			for _, a := range []string{"data-src", "data-original", "datasrc", "data-url", "data-srcset", "datasrcset", "data-lazy-src", "data-orig-file"} {
+				if g.r.P(1, 2) {
+					g.wf(` %s="/img/%s-%d.jpg"`, a, a, g.tok)
+				}
+			}
+			if g.r.Bool() {
+				g.wf(` src="/img/placeholder%d.gif"`, g.tok)
+			}
+			g.w(`>`)
+		}
 	case 3:
 		g.f("noscript-img")
 		g.wf(`<div class="lazy-image-placeholder"></div><noscript><img src="/img/ns%d.jpg" width="500" height="300"></noscript>`, g.tok)
@@ -976,17 +991,33 @@ func PagerDoc(seed uint64) GenDoc {
 		return h
 	}
 	var sb strings.Builder
-	sb.WriteString("<html><head><title>Pager page</title></head><body><h1>Pager page</h1><p>")
+	// element order: html(0) head(1) title(2) body(3) div#article(4) ...
+	sb.WriteString("<html><head><title>Pager page</title></head><body><div id=\"article\"><h1>Pager page</h1><p>")
 	for i := 0; i < r.Range(20, 120); i++ {
 		fmt.Fprintf(&sb, "pw%x_%d ", seed&0xfff, i)
 	}
-	sb.WriteString("</p>\n<div class=\"pager\">")
+	sb.WriteString("</p>\n")
 	cur := r.Range(1, n)
 	skip := -1
 	if r.P(1, 4) {
 		skip = r.Range(1, n) // a page missing from the pager
 	}
+	// the pager may straddle the article container: links 1..split inside, the rest after it
+	split := n + 1
+	wrapped := r.P(1, 2)
+	if r.P(1, 3) {
+		split = r.Range(1, n)
+		wrapped = false
+	}
+	if wrapped {
+		sb.WriteString("<div class=\"pager\">")
+	}
+	closed := false
 	for i := 1; i <= n; i++ {
+		if i == split+1 {
+			sb.WriteString("</div>\n")
+			closed = true
+		}
 		if i == skip {
 			continue
 		}
@@ -1003,7 +1034,16 @@ func PagerDoc(seed uint64) GenDoc {
 	if r.P(1, 3) {
 		fmt.Fprintf(&sb, `<a href="%s">next</a>`, href(min(cur+1, n)))
 	}
-	sb.WriteString("</div></body></html>")
+	if wrapped {
+		sb.WriteString("</div>")
+	}
+	if !closed {
+		sb.WriteString("</div>")
+	}
+	if r.P(1, 4) {
+		fmt.Fprintf(&sb, "\n<p>after <a href=\"/about\">about</a> <a href=\"%s\">%d</a></p>", href(n), n+1)
+	}
+	sb.WriteString("</body></html>")
 	var url string
 	switch r.Intn(6) {
 	case 0, 1:
